@@ -18,8 +18,8 @@ Loops: `for` loops are structural recursion; the binary search carries fuel = ta
 length (an upper bound of `top - bottom`, which shrinks every round; the lemma
 `insertionIndex_spec` does not depend on how fuel ends); the two `while` loops that shrink something
 (`_refine_downcheck`, `ordered_covering`) carry fuel = size + 2 and return
-`none` / `.error .fuel` if it ran out (never observed; it would be a
-non-terminating loop in Python).
+`none` / `.error .fuel` if it ran out; `orderedCovering_total` (Props) proves that this
+never happens.
 -/
 import RigModel.Model.Proto
 
